@@ -239,3 +239,139 @@ func r13ipX(c *core.Ctx, R string) {
 }
 
 var _ *ssa.Function
+
+// r17snssaiX: SnssaiToNas read off the abstract result: [1, SST] exactly when the SD string is empty,
+// otherwise [4, SST, the decoded SD octets].
+func r17snssaiX(c *core.Ctx) {
+	const R = "R17.snssai"
+	c.Rule(R, "SnssaiToNas: SD empty ⇒ [1, SST]; otherwise [4, SST, SD octets]")
+	fn := mustFunc(c, pNasC, "SnssaiToNas")
+	ex := core.NewExec()
+	ex.OnCall = func(ev *core.AEvent, _ *core.AMem) (core.AVal, bool) {
+		if ev.Callee == "encoding/hex.DecodeString" {
+			return core.OpaqueRet(ev), true
+		}
+		if strings.HasPrefix(ev.Callee, "github.com/sirupsen/logrus.") {
+			return core.AVal{K: core.ATuple}, true
+		}
+		return core.AVal{}, false
+	}
+	outs, err := ex.Run(fn, core.DefaultArgs(fn), nil)
+	if err != nil || len(ex.Unsound) > 0 {
+		c.SoftUndecided("R17.snssai: SnssaiToNas could not be evaluated (%v %v)", err, ex.Unsound)
+		return
+	}
+	const sd = "call:encoding/hex.DecodeString(p0.Sd)#0[0:]@0"
+	okEmpty, okFull, okSel, seenEmpty, seenFull := true, true, true, false, false
+	var other []string
+	for _, o := range outs {
+		if o.Panicked || len(o.Ret) != 1 {
+			continue
+		}
+		got := strings.Join(sliceContent(o.Mem, o.Ret[0]), ",")
+		empty, known := o.Nils["empty:p0.Sd"]
+		if !known {
+			okSel = false
+			continue
+		}
+		hexFailed := false
+		for n, isNil := range o.Nils {
+			if strings.Contains(n, "hex.DecodeString") && !isNil {
+				hexFailed = true
+			}
+		}
+		switch {
+		case empty:
+			seenEmpty = true
+			if got != "1,p0.Sst<7:0>" {
+				okEmpty = false
+				other = append(other, got)
+			}
+		case hexFailed:
+			if got != "4,p0.Sst<7:0>" { // SD not hexadecimal: warning path
+				other = append(other, got)
+			}
+		default:
+			seenFull = true
+			if got != "4,p0.Sst<7:0>,"+sd {
+				okFull = false
+				other = append(other, got)
+			}
+		}
+	}
+	c.Check(okEmpty && seenEmpty, R, "nasConvert.SnssaiToNas:sd-empty", fn.Pos(), "[1, SST]", "with an empty SD the result must be length 1 followed by SST; results are %v", other)
+	c.Check(okFull && seenFull, R, "nasConvert.SnssaiToNas:sd-present", fn.Pos(), "[4, SST, SD...]", "with an SD the result must be length 4, SST, then the SD octets; results are %v", other)
+	c.Check(okSel && seenEmpty && seenFull, R, "nasConvert.SnssaiToNas:selected-by-empty-sd", fn.Pos(), "short form iff Sd == \"\"", "the 1-octet-length form must be chosen exactly when the SD is empty")
+}
+
+// r16capX: GetUESecurityCapability read off the abstract result for every value of the two
+// algorithm fields: bit (7-n) of octet 0 for ciphering algorithm n, of octet 1 for integrity
+// algorithm n (TS 24.501 9.11.3.54), nothing else set — whatever switch, table of setters or
+// arithmetic selects the bit.
+func r16capX(c *core.Ctx, R string) {
+	fn := mustFunc(c, pTglib, "RanUeContext.GetUESecurityCapability")
+	ex := core.NewExec()
+	ex.MaxStates = 2000
+	args := core.DefaultArgs(fn)
+	args[0] = core.NonNilArg(args[0])
+	outs, err := ex.Run(fn, args, nil)
+	if err != nil || len(ex.Unsound) > 0 {
+		c.SoftUndecided("%s: GetUESecurityCapability could not be evaluated (%v %v)", R, err, ex.Unsound)
+		return
+	}
+	type cell struct{ ok bool; bad string; seen bool }
+	setters := []string{"SetEA0_5G", "SetEA1_128_5G", "SetEA2_128_5G", "SetEA3_128_5G", "SetIA0_5G", "SetIA1_128_5G", "SetIA2_128_5G", "SetIA3_128_5G"}
+	res := map[string]*cell{}
+	for _, s := range setters {
+		res[s] = &cell{ok: true}
+	}
+	okLen, okOther := true, true
+	for _, o := range outs {
+		if o.Panicked || len(o.Ret) != 1 || o.Ret[0].K != core.APtr {
+			continue
+		}
+		obj := o.Ret[0].Path
+		buf := o.Mem.Load(obj+".Buffer", nil)
+		ln := o.Mem.Load(obj+".Len", nil)
+		if k, isK := ln.ConstVal(); !isK || k != 2 || buf.K != core.ASlice || buf.Len != 2 {
+			okLen = false
+			continue
+		}
+		for oct, field := range []string{"p0.CipheringAlg", "p0.IntegrityAlg"} {
+			v := o.Mem.Load(fmt.Sprintf("%s[%d]", buf.Path, buf.Lo+oct), nil)
+			got, isK := v.ConstVal()
+			f, pinned := o.Facts[field]
+			alg := -1
+			if pinned && f[0] == f[1] && f[0] <= 3 {
+				alg = int(f[0])
+			}
+			if alg < 0 {
+				// no algorithm with a capability bit: the octet stays clear
+				if !isK || got != 0 {
+					okOther = false
+				}
+				continue
+			}
+			name := setters[4*oct+alg]
+			res[name].seen = true
+			if !isK || got != 1<<uint(7-alg) {
+				res[name].ok = false
+				res[name].bad = fmt.Sprintf("octet %d is %s for algorithm %d, want %#02x", oct, v, alg, 1<<uint(7-alg))
+			}
+		}
+	}
+	c.Check(okLen, R, "tglib.GetUESecurityCapability:length", fn.Pos(), "Len 2, two capability octets", "the UE security capability must have Len 2 and a 2-octet buffer")
+	for i, s := range setters {
+		r := res[s]
+		kind, n := "ciphering", i
+		if i >= 4 {
+			kind, n = "integrity", i-4
+		}
+		if !r.seen {
+			c.Fail(R, "tglib.GetUESecurityCapability:"+s, fn.Pos(), "the capability for this algorithm is never advertised")
+			continue
+		}
+		c.Check(r.ok, R, "tglib.GetUESecurityCapability:"+s, fn.Pos(), fmt.Sprintf("%s algorithm %d ⇒ bit %d", kind, n, 7-n), "%s algorithm %d must set exactly bit %d of its octet: %s", kind, n, 7-n, r.bad)
+	}
+	c.Check(okOther, R, "tglib.GetUESecurityCapability:other-algorithms", fn.Pos(), "no bit for an algorithm id without a capability bit", "an algorithm id above 3 must not set any capability bit")
+}
